@@ -9,8 +9,20 @@ log at the moments the progress reporter announces begin and end of the case), e
 plainly alone.  Model: Model/Cases.v (handling setup, merge) + Model/Suite.v (reader) + Model/Exec.v (full_execute);
 property on the observations: Spec/C17.v `check_suite_case`.
 
-Experiment 2 (histories; real program, real instructions): see `gen_history`.
-Experiment 3 (histories; stub instructions through the public executor): see `gen_stub_history`.
+Experiment 2 (histories; real program, real instructions): families of cases that change settings (env [-of act|!act]
+[unset], timeout, cd, def, file in act/ and tmp/) and of cases that observe (shell probes printing environment, current
+directory, listings of act/ and tmp/ at the start of [setup], in the act program and in [cleanup]; references to / definitions
+of the symbols), run in every order as a suite and as consecutive standalone runs of ONE MainProgram object; half of the
+families with [setup] contents supplied by the suite, most of these also with suite-supplied [before-assert] / [assert] /
+[cleanup] instructions that look at state the CASES set differently (a symbol every case defines with a value of its own,
+referred to inside a string and a here-document; environment, current directory, files): the instruction OBJECTS parsed from
+the suite file are shared by all its cases; the baseline of every case is its run alone in a FRESH PROCESS.  Model:
+`run_cases real_policy` of Model/Cases.v with `sem_of_script` (Spec/C17.v `check_hist_case`).
+
+Experiment 3 (histories; stub instructions through the public executor of processors.py, one executor for the whole history,
+as `SuitesExecutor` does, on a shared environment dictionary and shared predefined symbols): the stubs mutate everything they
+are handed (InstructionSettings, SetupSettingsBuilder, symbol tables, cwd, sandbox files) and record everything they can
+see.  Same model, same check.
 """
 import io
 import json
@@ -212,6 +224,18 @@ def gen_suite_instance(rng):
             s['cases'].append(cname)
         if rng.chance(0.15) and s['cases']:
             s['cases'].append(s['cases'][0])  # listed twice
+        if name != 'exactly.suite' and rng.chance(0.35):
+            # a decoy: an exactly.suite beside the cases that does NOT list them: it must be ignored by the suite run and by
+            # --suite, and used by the plain run
+            dconf = []
+            if fam != 'cmd' or rng.chance(0.4):
+                # (the act phases of the cases are written in the syntax of the listing suite's actor: the decoy keeps to it)
+                dconf.append(('actor', rng.choice([a for a in FAMILY if FAMILY[a] == fam and a != 'ADefault'] + ['ANull'])))
+            if rng.chance(0.3):
+                dconf.append(('pre', rng.choice([1, 2])))
+            dec = {'kind': 'suite', 'conf': dconf, 'suites': [], 'cases': [], 'family': fam, 'decoy': True}
+            dec.update(gen_contents(rng, labels, True, fam, fail_budget))
+            files[os.path.join(rel_dir, 'exactly.suite')] = dec
         if depth < 2:
             k = rng.choice([0, 1, 1, 2]) if depth == 0 else rng.choice([0, 0, 1])
             for i in range(k):
@@ -431,7 +455,8 @@ def c_mut(m):
 
 
 def c_script(sc):
-    us = ['(%s %s)' % ('UDef' if u[0] == 'def' else 'URef', cnat(u[1])) for u in sc['usages']]
+    us = ['(UDef %s %s)' % (cnat(u[1]), cnat(u[2] if len(u) > 2 else 0)) if u[0] == 'def' else '(URef %s)' % cnat(u[1])
+          for u in sc['usages']]
     return '(SC %s %s %s)' % (c_list(us, 'usage'), c_list([c_mut(m) for m in sc['m1']], 'mutation'),
                               c_list([c_mut(m) for m in sc['m2']], 'mutation'))
 
@@ -451,10 +476,15 @@ def c_vdir(d):
 def c_oview(v):
     if v is None:
         return 'None'
-    return '(Some (OV %s %s %s %s %s %s))' % (
+    return '(Some %s)' % c_oview_plain(v)
+
+
+def c_oview_plain(v):
+    return '(OV %s %s %s %s %s %s %s)' % (
         copt(v.get('env'), c_env), copt(v.get('act_env'), c_env),
         'None' if 'timeout' not in v else '(Some %s)' % copt(v['timeout'], cZ),
         copt(v.get('syms'), lambda l: c_list([cnat(x) for x in l], 'nat')),
+        copt(v.get('sym_vals'), c_env),
         copt(v.get('cwd'), c_vdir),
         copt(v.get('files'), lambda l: c_list(['(%s, %s)' % (AREA[a], cnat(n)) for a, n in l], '(sds_dir * nat)')))
 
@@ -462,7 +492,8 @@ def c_oview(v):
 def c_ocase(o):
     if o['result'] not in FULL:
         raise ValueError('unexpected identifier %r' % (o['result'],))
-    return '(OC %s %s %s %s)' % (o['result'], c_oview(o.get('end1')), c_oview(o.get('view2')), c_oview(o.get('end2')))
+    return '(OC %s %s %s %s %s)' % (o['result'], c_oview(o.get('end1')), c_oview(o.get('view2')), c_oview(o.get('end2')),
+                                    c_list([c_oview_plain(v) for v in o.get('more', [])], 'oview'))
 
 
 def hist_term(h):
@@ -725,7 +756,8 @@ def observe_stub_history(hist, d):
         seq = StubRunner(os.path.join(d, 'seq'), hist)
         os.chdir(seq.home)
         obs = [seq.run(sc) for sc in hist['scripts']]
-        proc_ok = os.path.realpath(os.getcwd()) == os.path.realpath(seq.home) and dict(os.environ) == env0 and not os.listdir(seq.sbx)
+        # (whether the sandbox directory is removed is C04's business, not looked at here)
+        proc_ok = os.path.realpath(os.getcwd()) == os.path.realpath(seq.home) and dict(os.environ) == env0
         final = seq.final()
         alone = []
         for i, sc in enumerate(hist['scripts']):
@@ -750,6 +782,7 @@ REAL_OPS = {
     'unset_act': lambda k: [('unactenv', k)],
     'unset_nonact': lambda k: [('unenv', k)],
     'timeout': lambda t: [('timeout', t)],
+    'timeout_last': lambda t: [('timeout', t)],  # as the last instruction of [cleanup]: no probe of the case itself runs under it
     'cd': lambda a: [('cd', a)],
     'file': lambda a, n: [('file', a, n)],
     'sleep': lambda secs: [],
@@ -778,23 +811,66 @@ def real_script_model(sc):
     return {'usages': sc['usages'], 'm1': [], 'm2': m2}
 
 
-def probe(tag, log, with_dirs):
+W = 8  # the symbol that the cases of a family define with different values and that suite-supplied instructions look at
+
+
+def probe(tag, log, with_dirs, syms=(), seen_file=False):
+    """a shell instruction printing what it sees; `@[C17S_n]@` inside the double-quoted string is a symbol reference in a
+    string: it is resolved by the instruction object"""
     s = '%s;' % tag + ''.join('%d=${C17K_%d-U};' % (k, k) for k in KEYS)
     if with_dirs:
         s += "cwd=$(pwd);act=$(ls -A @[EXACTLY_ACT]@ | tr '\\n' ,);tmp=$(ls -A @[EXACTLY_TMP]@ | tr '\\n' ,);"
+    s += ''.join('S%d=@[C17S_%d]@;' % (n, n) for n in syms)
+    if seen_file:
+        s += 'F%d=$(cat @[EXACTLY_TMP]@/f9);' % W
     return '$ echo "%s" >> %s' % (s, log)
 
 
-def real_case_text(sc, log):
-    out = ['[setup]', probe('P0', log, True)]
-    for k, n in sc['usages']:
-        out.append('def string C17S_%d = x' % n if k == 'def' else '$ true @[C17S_%d]@' % n)
+def real_suite_text(fam, log, cases):
+    """the suite of a family: lists the cases; 50% of the families: [setup] contents of its own (the first probe, then
+    definitions / settings), 80% of these also before-assert / assert / cleanup contents that look at what the case did -
+    the SAME parsed instruction objects are then part of every case of the suite"""
+    out = ['[cases]'] + list(cases)
+    sc = fam.get('suite')
+    if sc is not None:
+        out += ['[setup]', probe('P0', log, True)]
+        out += usage_texts(sc['usages'])
+        out += [real_op_text(op) for op in sc['ops']]
+        if sc.get('observes'):
+            # instructions of the suite that look at what the CASE defined / changed: the symbol W that every case defines with
+            # a value of its own (in a string, in a here-document), its environment, current directory and files
+            out += ['[before-assert]',
+                    'file -rel-tmp f9 = "@[C17S_%d]@"' % W,
+                    probe('SB', log, True, syms=[W], seen_file=True),
+                    '[assert]',
+                    probe('SA', log, True, syms=[W], seen_file=True),
+                    'stdout equals <<EOF', '@[C17S_%d]@' % W, 'EOF',
+                    '[cleanup]',
+                    probe('SC', log, True, syms=[W], seen_file=True)]
+    return '\n'.join(out) + '\n'
+
+
+def usage_texts(usages):
+    out = []
+    for u in usages:
+        if u[0] == 'def':
+            out.append('def string C17S_%d = %s' % (u[1], u[2] if len(u) > 2 else 0))
+        else:
+            out.append('$ true @[C17S_%d]@' % u[1])
+    return out
+
+
+def real_case_text(sc, log, own_p0=True):
+    out = ['[setup]'] + ([probe('P0', log, True)] if own_p0 else [])
+    out += usage_texts(sc['usages'])
+    wval = [u[2] for u in sc['usages'] if u[0] == 'def' and u[1] == W]
     sleeps = [op for op in sc['ops'] if op[0] == 'sleep']
-    out += [real_op_text(op) for op in sc['ops'] if op[0] != 'sleep']
-    out += ['[act]', probe('A', log, False)]
+    out += [real_op_text(op) for op in sc['ops'] if op[0] not in ('sleep', 'timeout_last')]
+    out += ['[act]', probe('A', log, False) + ('; echo %d' % wval[0] if wval else '')]
     if sleeps:
         out += ['[assert]'] + ['$ sleep %s' % op[1] for op in sleeps]
-    out += ['[cleanup]', probe('P1', log, True)]
+    out += ['[cleanup]', probe('P1', log, True, syms=[W] if wval else [])]
+    out += ['timeout = %d' % op[1] for op in sc['ops'] if op[0] == 'timeout_last']
     return '\n'.join(out) + '\n'
 
 
@@ -820,7 +896,7 @@ def gen_real_script(rng, observer):
         elif k.startswith('unset_'):
             ops.append((k, rng.choice([1, 9])))
         elif k == 'timeout':
-            ops.append((k, rng.randint(2, 9)))
+            ops.append((k, rng.randint(30, 50)))  # never so short that a probe of the case itself could run into it on a loaded machine
         elif k == 'cd':
             ops.append((k, rng.choice(['tmp', 'act'])))
         else:
@@ -838,7 +914,7 @@ def permutations(xs):
 
 def gen_real_family(rng, quick, timeout_family=False):
     if timeout_family:
-        scripts = [{'usages': [], 'ops': [('timeout', 1)]}, {'usages': [], 'ops': [('sleep', '1.4')]}]
+        scripts = [{'usages': [], 'ops': [('timeout_last', 1)]}, {'usages': [], 'ops': [('sleep', '1.4')]}]
         return {'scripts': scripts, 'orders': [[0, 1], [1, 0, 1]]}
     n_act = rng.randint(1, 2)
     scripts = [gen_real_script(rng, False) for _ in range(n_act)] + [gen_real_script(rng, True) for _ in range(rng.randint(1, 2))]
@@ -848,10 +924,24 @@ def gen_real_family(rng, quick, timeout_family=False):
     rep = list(range(len(scripts)))
     rng.shuffle(rep)
     orders.append(rep + [rep[0]])  # a case run twice
-    return {'scripts': scripts, 'orders': orders}
+    fam = {'scripts': scripts, 'orders': orders}
+    if rng.chance(0.5):
+        sc = gen_real_script(rng, False)
+        # symbols / files of the suite's own, so that the cases' own definitions do not collide with them by construction
+        sc['usages'] = [(k, n + 4) for k, n in sc['usages']]
+        sc['ops'] = [(op[0], op[1], op[2] + 5) if op[0] == 'file' else op for op in sc['ops']]
+        if rng.chance(0.8):
+            # the suite's before-assert / assert / cleanup look at the symbol W; (nearly) every case defines it, each with a
+            # value of its own
+            sc['observes'] = True
+            for i, c in enumerate(scripts):
+                if rng.chance(0.88):
+                    c['usages'].insert(rng.below(len(c['usages']) + 1), ('def', W, i + 1))
+        fam['suite'] = sc
+    return fam
 
 
-_PROBE = re.compile(r'^(P0|A|P1);(.*)$')
+_PROBE = re.compile(r'^(P0|A|P1|SB|SA|SC);(.*)$')
 
 
 def parse_probes(text, sbx_roots):
@@ -871,6 +961,9 @@ def parse_probes(text, sbx_roots):
             if k.isdigit():
                 if val != 'U':
                     v['env'].append((int(k), int(val) if val.isdigit() else 9999))
+            elif re.match(r'^[SF]\d+$', k):
+                # the value a symbol reference was resolved to (S), or that was written into a file through one (F)
+                v.setdefault('sym_vals', []).append((int(k[1:]), int(val) if val.isdigit() else 9999))
             elif k == 'cwd':
                 real = os.path.realpath(val)
                 cls = 99
@@ -881,7 +974,7 @@ def parse_probes(text, sbx_roots):
             elif k in ('act', 'tmp'):
                 for name in val.split(','):
                     if name:
-                        mm = re.match(r'^f(\d+)$', name)
+                        mm = re.match(r'^f(\d+)(\.txt)?$', name)
                         v.setdefault('files', []).append((k, int(mm.group(1)) if mm else 999))
                 v.setdefault('files', [])
         out[m.group(1)] = v
@@ -898,6 +991,7 @@ def ocase_of_probes(ident, pr):
         o['end2'] = dict(pr['P1'])
         if 'A' in pr:
             o['end2']['act_env'] = pr['A']['env']
+    o['more'] = [pr[t] for t in ('SB', 'SA', 'SC') if t in pr]
     return o
 
 
@@ -926,9 +1020,10 @@ def observe_real_family(fam, d, sbx):
     os.environ['C17K_9'] = '1'
     log = os.path.join(d, 'LOG')
     n = len(fam['scripts'])
+    has_suite = fam.get('suite') is not None
     for i, sc in enumerate(fam['scripts']):
         with open(os.path.join(d, 'c%d.case' % i), 'w') as f:
-            f.write(real_case_text(sc, log))
+            f.write(real_case_text(sc, log, own_p0=not has_suite))
     # every case alone, each in a process of its own
     procs = []
     runner = os.path.join(common.REPO, 'src', 'default-main-program-runner.py')
@@ -936,9 +1031,14 @@ def observe_real_family(fam, d, sbx):
         ad = os.path.join(d, 'alone%d' % i)
         os.makedirs(os.path.join(ad, 'tmp'))
         with open(os.path.join(ad, 'c.case'), 'w') as f:
-            f.write(real_case_text(sc, os.path.join(ad, 'LOG')))
+            f.write(real_case_text(sc, os.path.join(ad, 'LOG'), own_p0=not has_suite))
+        args = ['c.case']
+        if has_suite:
+            with open(os.path.join(ad, 'only.suite'), 'w') as f:
+                f.write(real_suite_text(fam, os.path.join(ad, 'LOG'), []))
+            args = ['--suite', 'only.suite', 'c.case']
         env = dict(os.environ, PYTHONPATH=os.path.join(common.REPO, 'src'), PYTHONWARNINGS='ignore', TMPDIR=os.path.join(ad, 'tmp'), C17K_9='1')
-        procs.append((ad, subprocess.Popen([sys.executable, runner, 'c.case'], cwd=ad, env=env, stdout=subprocess.PIPE,
+        procs.append((ad, subprocess.Popen([sys.executable, runner] + args, cwd=ad, env=env, stdout=subprocess.PIPE,
                                            stderr=subprocess.DEVNULL, text=True)))
     alone = []
     for ad, p in procs:
@@ -954,12 +1054,21 @@ def observe_real_family(fam, d, sbx):
     old = os.getcwd()
     try:
         for k, order in enumerate(fam['orders']):
+            def merged(sc):
+                m = real_script_model(sc)
+                if has_suite:  # suite contents first
+                    sm = real_script_model(fam['suite'])
+                    m = {'usages': sm['usages'] + m['usages'], 'm1': [], 'm2': sm['m2'] + m['m2']}
+                    if fam['suite'].get('observes'):  # ... and, in the phases after [setup], after the case's
+                        m = {'usages': m['usages'] + [('ref', W)], 'm1': [], 'm2': m['m2'] + [('file', 'tmp', 9)]}
+                return m
+
             base = {'osenv': [(9, 1)], 'environ': None, 'syms': [], 'timeout': 60,
-                    'scripts': [real_script_model(fam['scripts'][i]) for i in order], 'alone': [alone[i] for i in order], 'final': None,
+                    'scripts': [merged(fam['scripts'][i]) for i in order], 'alone': [alone[i] for i in order], 'final': None,
                     'order': order}
             # (a) as a suite
             with open(os.path.join(d, 'o%d.suite' % k), 'w') as f:
-                f.write('[cases]\n' + ''.join('c%d.case\n' % i for i in order))
+                f.write(real_suite_text(fam, log, ['c%d.case' % i for i in order]))
             if os.path.exists(log):
                 os.remove(log)
             out, cwd_ok, env_ok, exc = exec_main(mp, ['suite', 'o%d.suite' % k], d, log)
@@ -984,14 +1093,14 @@ def observe_real_family(fam, d, sbx):
                         ident = line.split(') ')[-1].strip()
                         obs.append(ocase_of_probes(ident, parse_probes(logb[cur:pos].decode('utf-8', 'replace'), [sbx])))
                         cur = None
-            hists.append(dict(base, mode='suite', obs=obs, proc_ok=cwd_ok and env_ok and exc is None and not os.listdir(sbx),
+            hists.append(dict(base, mode='suite', obs=obs, proc_ok=cwd_ok and env_ok and exc is None,
                               note=repr(exc) if exc else ''))
             # (b) one after the other, standalone, with the same MainProgram object
             obs, ok = [], True
             for i in order:
                 if os.path.exists(log):
                     os.remove(log)
-                out, cwd_ok, env_ok, exc = exec_main(mp, ['c%d.case' % i], d, log)
+                out, cwd_ok, env_ok, exc = exec_main(mp, (['--suite', 'o%d.suite' % k] if has_suite else []) + ['c%d.case' % i], d, log)
                 os.chdir(old)
                 ok = ok and cwd_ok and env_ok and exc is None
                 ident = (out.getvalue().strip().splitlines() or ['?'])[0]
@@ -1000,10 +1109,13 @@ def observe_real_family(fam, d, sbx):
                 except OSError:
                     text = ''
                 obs.append(ocase_of_probes(ident, parse_probes(text, [sbx])))
-            hists.append(dict(base, mode='standalone, one after the other', obs=obs, proc_ok=ok and not os.listdir(sbx), note=''))
+            hists.append(dict(base, mode='standalone, one after the other', obs=obs, proc_ok=ok, note=''))
     finally:
         os.chdir(old)
-    return {'case_files': {'c%d.case' % i: real_case_text(sc, 'LOG') for i, sc in enumerate(fam['scripts'])}, 'hists': hists}
+    files = {'c%d.case' % i: real_case_text(sc, 'LOG', own_p0=not has_suite) for i, sc in enumerate(fam['scripts'])}
+    if has_suite:
+        files['SUITE (cases listed in the given order)'] = real_suite_text(fam, 'LOG', [])
+    return {'case_files': files, 'hists': hists}
 
 
 # ---------------------------------------------------------------------------------------------------------
@@ -1059,10 +1171,10 @@ def run_parallel(ctx, kind, items, nproc=None):
 
 
 # ---------------------------------------------------------------------------------------------------------
-def run(ctx, res):
+def run(ctx, res, scale=1):
     rng = ctx.rng
     terms, meta = [], []
-    n_suite = 90 if ctx.quick else 1500
+    n_suite = (80 if ctx.quick else 1500) * scale
     insts = [gen_suite_instance(rng) for _ in range(n_suite)]
     for inst, (st, obs) in zip(insts, run_parallel(ctx, 'suite', insts)):
         if st != 'ok':
@@ -1083,7 +1195,7 @@ def run(ctx, res):
         if any(any(f[p] for p in PHASES) or f['conf'] for f in inst['files'].values() if f['kind'] == 'suite'):
             res.nontrivial.add(json.dumps(d['files'], sort_keys=True))
     # ---- experiment 2
-    n_fam = 14 if ctx.quick else 150
+    n_fam = (14 if ctx.quick else 160) * scale
     fams = [gen_real_family(rng, ctx.quick, timeout_family=(i % 50 == 0)) for i in range(n_fam)]
     for fam, (st, obs) in zip(fams, run_parallel(ctx, 'real', fams)):
         if st != 'ok':
@@ -1100,14 +1212,15 @@ def run(ctx, res):
                 res.prop_failures.append(Failure('property', d, 'unclassifiable observation: %r' % (ex,)))
                 continue
             meta.append(d)
-            res.count('exp2 runs as ' + h['mode'])
+            res.count('exp2 runs as ' + h['mode'] + ('' if 'suite' not in fam else ', suite with contents in all phases that look at '
+                      'what the case defined' if fam['suite'].get('observes') else ', suite with [setup] contents'))
             res.count('exp2 cases per history: %d' % len(h['order']))
             for o in h['obs']:
                 res.count('exp2 identifier ' + o['result'])
             if any(sc['m2'] or sc['usages'] for sc in h['scripts']):
                 res.nontrivial.add(json.dumps([obs['case_files'], h['order'], h['mode']], sort_keys=True))
     # ---- experiment 3
-    n_stub = 400 if ctx.quick else 6000
+    n_stub = (360 if ctx.quick else 6000) * scale
     hists = [gen_stub_history(rng) for _ in range(n_stub)]
     for hist, (st, obs) in zip(hists, run_parallel(ctx, 'stub', hists)):
         if st != 'ok':
@@ -1127,12 +1240,30 @@ def run(ctx, res):
         if any(sc['m2'] or sc['usages'] for sc in hist['scripts']):
             res.nontrivial.add(json.dumps([hist['scripts'], hist['environ'], hist['timeout']], sort_keys=True, default=str))
     res.rule = ('exp1: random hierarchies (root + sub-suites to depth 2, exactly.suite / other names / directory references, a case '
-                'listed twice) x suite contents in a random subset of {status, actor, preprocessor (1 or 2), setup, act, before-assert, '
+                'listed twice, 35% of the suites not named exactly.suite get a decoy exactly.suite with contents beside their cases) x suite contents in a random subset of {status, actor, preprocessor (1 or 2), setup, act, before-assert, '
                 'assert, cleanup} (10% none, 10% all) x case contents in a random subset (same) x 35%: one failing marker instruction; '
                 'each run as suite, each case with --suite, beside exactly.suite / plainly alone. non-trivial := some suite file has '
-                'contents; distinct := distinct file texts')
+                'contents; distinct := distinct file texts. '
+                'exp2: families of 2-4 real cases (1-2 that change settings with env [-of act|!act] [unset], timeout, cd, def, file in '
+                'act/ and tmp/; 1-2 observers that refer to / define the symbols and print, through the shell, environment, current '
+                'directory and the listing of act/ and tmp/ at the start of [setup], in the act program and in [cleanup]) in every order '
+                '(6 orders sampled when there are more, in quick) + one order with a case run twice; 50%: the suite supplies [setup] '
+                'contents, 80% of these also before-assert / assert / cleanup instructions (file = "@[W]@", shell probes, stdout equals '
+                '<<EOF @[W]@ EOF) looking at a symbol W that every case defines with a value of its own and at env / cwd / files; each '
+                'order run as a suite and as '
+                'consecutive standalone runs of one MainProgram object; baseline = every case alone in a process of its own; one family '
+                'per 50 with a 1 s timeout followed by a case that sleeps 1.4 s. non-trivial := some case changes a setting or uses a '
+                'symbol; distinct := distinct (case files, order, mode). '
+                'exp3: histories of 2-6 stub cases through one executor of processors.py on a shared environment dictionary (50%: None) '
+                'and shared predefined symbols: stub instructions define / refer to symbols, chdir and put symbols before the sandbox '
+                'exists, and in setup set / unset variables through InstructionSettings and SetupSettingsBuilder, set the timeout, put '
+                'symbols, chdir in and out of the sandbox, create files; every view (environment, act environment, timeout, symbols, '
+                'cwd, files) is recorded at validation, at the start of setup and in cleanup. non-trivial / distinct likewise.')
     res.evaluations = len(terms)
-    res.samples = [meta[0], meta[len(meta) // 2]] if meta else []
+    by_exp = {}
+    for m in meta:
+        by_exp.setdefault(m['experiment'], []).append(m)
+    res.samples = [v[len(v) // 2] for v in by_exp.values()]
     cb, pb, errs = common.run_shards('C17', ['Model.Outcome', 'Model.Exec', 'Model.World', 'Model.Suite', 'Model.Cases', 'Spec.C17'],
                                      'check_c17', terms, shard_size=40)
     res.errors += errs
@@ -1143,11 +1274,20 @@ def run(ctx, res):
 
 
 WHAT = {'stub history': 'a case run after others (one executor, shared environment dictionary / predefined symbols) did not see or do '
-                        'what it sees and does alone; or the shared objects, cwd, os.environ or the sandbox directory were not as before',
+                        'what it sees and does alone; or the shared objects, cwd or os.environ were not as before',
         'real history': 'a case run after others in one process did not write the probes / get the identifier it gets in a fresh process',
         'suite contents': 'a case run in the suite, alone with --suite and alone beside exactly.suite did not give the same identifier '
                           'and markers; or a marker of a file other than the case and its own suite was written; or suite markers '
                           'were not before the case\'s (after, in cleanup); or a passing case did not write every marker once'}
+
+
+def search(ctx, res):
+    """failing-input search (a proof or the correspondence broke): all three experiments again, other seed, three times the
+    quick sizes; returns the inputs on which the property predicate fails on the implementation's behaviour"""
+    ctx2 = common.Ctx(ctx.prop, 'quick', ctx.seed + 17)
+    r2 = common.Result()
+    run(ctx2, r2, scale=3)
+    return r2.prop_failures
 
 
 def replay(ctx, payload):
